@@ -11,10 +11,14 @@ package tbtc
 //        not.
 //   TestVerif_C13_TbtcGates    the production submitters
 //        (dkgResultSubmitter.SubmitResult, inactivityClaimSubmitter.SubmitClaim)
-//        with signature maps of every size 0..n for every (n, h, q) of
-//        gates.ndjson: the chain sees a submission iff the size reaches the
-//        threshold of the specification, and the signing members handed to the
-//        chain are exactly the map's keys.
+//        for every (n, h, q, m) of gates.ndjson with q <= m <= n, where m is the
+//        ACTUAL size of the signing group (inactivity: a wallet of m members,
+//        i.e. len(groupMembers) = m; DKG result: m operating members, the other
+//        n - m marked inactive / disqualified) and (n, h, q) the nominal group
+//        parameters, with signature maps of every size 0..m: the chain sees a
+//        submission iff the size reaches the NOMINAL threshold of the
+//        specification, and the signing members handed to the chain are
+//        exactly the map's keys.
 
 import (
 	"context"
@@ -95,11 +99,12 @@ func TestVerif_C13_TbtcGates(t *testing.T) {
 	for _, gset := range kit.LoadCases(t, "gates.ndjson") {
 		for _, g := range gset.List() {
 			proto, n, h, q, thr := g.Get("proto").Str(), g.Get("n").Int(), g.Get("h").Int(), g.Get("q").Int(), g.Get("threshold").Int()
-			if proto != "tecdsa" && proto != "inactivity" {
+			m := g.Get("m").Int()
+			if (proto != "tecdsa" && proto != "inactivity") || m < q || m > n {
 				continue
 			}
 			gp := &GroupParameters{GroupSize: n, GroupQuorum: q, HonestThreshold: h}
-			for k := 0; k <= n; k++ {
+			for k := 0; k <= m; k++ {
 				ch := &c13Chain{localChain: base}
 				sigs := c13SigMap(k)
 				var err error
@@ -118,13 +123,21 @@ func TestVerif_C13_TbtcGates(t *testing.T) {
 							ids[i], addrs[i] = opID, addr
 						}
 						sub := newDkgResultSubmitter(&testutils.MockLogger{}, ch, gp, &GroupSelectionResult{OperatorsIDs: ids, OperatorsAddresses: addrs}, c13Wait)
-						err = sub.SubmitResult(ctx, 1, &dkg.Result{Group: group.NewGroup(n-h, n), PrivateKeyShare: share}, sigs)
+						grp := group.NewGroup(n-h, n)
+						for x := m + 1; x <= n; x++ { // n - m members misbehaved during the DKG
+							if x%2 == 0 {
+								grp.MarkMemberAsInactive(group.MemberIndex(x))
+							} else {
+								grp.MarkMemberAsDisqualified(group.MemberIndex(x))
+							}
+						}
+						err = sub.SubmitResult(ctx, 1, &dkg.Result{Group: grp, PrivateKeyShare: share}, sigs)
 						if len(ch.results) == 1 {
 							did = true
 							handed = c13Indexes(ch.results[0].SigningMembersIndexes)
 						}
 					} else {
-						members := make([]uint32, n)
+						members := make([]uint32, m) // the wallet has m members
 						sub := newInactivityClaimSubmitter(&testutils.MockLogger{}, ch, gp, members, c13Wait)
 						claim := inactivity.NewClaimPreimage(big.NewInt(9), share.PublicKey(), []group.MemberIndex{2}, false)
 						err = sub.SubmitClaim(ctx, 1, claim, sigs)
@@ -135,12 +148,15 @@ func TestVerif_C13_TbtcGates(t *testing.T) {
 					}
 				}()
 				want := k >= thr
-				key := fmt.Sprintf("%s:gate:n=%d,h=%d,q=%d,k=%d", proto, n, h, q, k)
-				rep.Eval(key, map[string]interface{}{"proto": proto, "n": n, "h": h, "q": q, "k": k, "submitted": did})
+				key := fmt.Sprintf("%s:gate:n=%d,h=%d,q=%d,m=%d,k=%d", proto, n, h, q, m, k)
+				rep.Eval(key, map[string]interface{}{"proto": proto, "n": n, "h": h, "q": q, "m": m, "k": k, "submitted": did})
+				if m < n {
+					rep.Count(proto+".gate.smallgroup", 1)
+				}
 				rep.Count(fmt.Sprintf("%s.gate.%v", proto, want), 1)
 				if did != want || (want && err != nil) || (!want && err == nil) || len(ch.results)+len(ch.claims) > 1 {
 					rep.Diverge(key, fmt.Sprintf("%s: %d supporting signatures, n=%d honest=%d quorum=%d (gate %d): submitted=%v err=%v, specification submits=%v",
-						proto, k, n, h, q, thr, did, err, want), g.X, want, did)
+						proto, k, n, h, q, thr, did, err, want)+fmt.Sprintf(" [signing group of %d members]", m), g.X, want, did)
 					continue
 				}
 				if did {
